@@ -27,8 +27,9 @@ func (e *Env) RPerFileState() {
 	if fd == nil || fd.Body == nil {
 		return
 	}
-	lit, _ := funcLitNamed(info, fd, "processFile")
+	lit := e.perFilePass(pkg, fd)
 	if lit == nil {
+		e.Run.Undecided("R-FILESCOPE", "per-file pass of fragment()", e.Prog.Pos(fd.Pos()), "no function that fragment() calls for an *ast.File and for each file of an *ast.Package")
 		return
 	}
 	n := 0
@@ -67,6 +68,36 @@ func (e *Env) RPerFileState() {
 	}
 	for _, b := range bodies {
 		e.perFileStores(info, lit, b, seen, &n)
+	}
+	// a function of the package that fills a set it is handed writes on behalf of the pass too: the
+	// set it is handed must be one of the pass's own
+	for _, b := range bodies {
+		ast.Inspect(b, func(nd ast.Node) bool {
+			call, ok := nd.(*ast.CallExpr)
+			if !ok {
+				return true
+			}
+			mk := e.markingFuncOf(pkg, call)
+			if mk == nil {
+				return true
+			}
+			arg := ast.Unparen(call.Args[mk.mapIdx])
+			id, ok := arg.(*ast.Ident)
+			if !ok {
+				e.Run.Undecided("R-FILESCOPE", "processFile: the set handed to "+mk.decl.Name.Name+" is allocated per file", e.Prog.Pos(call.Pos()), "the argument is not a plain variable: "+types.ExprString(arg))
+				return true
+			}
+			obj := info.Uses[id]
+			if obj == nil || seen[obj] {
+				return true
+			}
+			seen[obj] = true
+			n++
+			inside := lit.Body.Pos() <= obj.Pos() && obj.Pos() < lit.Body.End()
+			e.Run.Check("R-FILESCOPE", "processFile: "+obj.Name()+" (written per file) is allocated per file", e.Prog.Pos(obj.Pos()), inside,
+				"the collection is declared outside the per-file pass but filled inside it (by "+mk.decl.Name.Name+", called at "+e.Prog.Pos(call.Pos())+"): when a package is decorated, entries of one file (line numbers) leak into the files processed after it")
+			return true
+		})
 	}
 	e.Run.Floor("R-FILESCOPE", "per-file collections in processFile", n, 1)
 }
@@ -217,8 +248,9 @@ func (e *Env) RNewlineScan() {
 	if fd == nil {
 		return
 	}
-	lit, _ := funcLitNamed(info, fd, "processFile")
+	lit := e.perFilePass(pkg, fd)
 	if lit == nil {
+		e.Run.Undecided("R-SCAN", "per-file pass of fragment()", e.Prog.Pos(fd.Pos()), "no function that fragment() calls for an *ast.File and for each file of an *ast.Package")
 		return
 	}
 	var loop *ast.ForStmt
@@ -698,6 +730,7 @@ func returnsErrorResult(info *types.Info, fd *ast.FuncDecl) bool {
 func (e *Env) avoidKeyProvenance(lit *ast.FuncLit) {
 	pkg := e.Prog.Pkg(load.PkgDecorator)
 	info := pkg.TypesInfo
+	defsRoot := lit.Body
 	kindOf := func(x ast.Expr) string {
 		seen := map[types.Object]bool{}
 		var walk func(x ast.Expr, depth int) string
@@ -721,7 +754,7 @@ func (e *Env) avoidKeyProvenance(lit *ast.FuncLit) {
 							k := "adjusted"
 							src := ast.Unparen(v.X)
 							if id, isID := src.(*ast.Ident); isID {
-								if def := singleDefIn(info, lit.Body.List, info.Uses[id]); def != nil {
+								if def := singleDefIn(info, defsRoot.List, info.Uses[id]); def != nil {
 									src = ast.Unparen(def)
 								}
 							}
@@ -749,7 +782,7 @@ func (e *Env) avoidKeyProvenance(lit *ast.FuncLit) {
 					}
 					seen[o] = true
 					// definitions of the local, and the bound of a loop that counts it
-					ast.Inspect(lit.Body, func(m ast.Node) bool {
+					ast.Inspect(defsRoot, func(m ast.Node) bool {
 						switch st := m.(type) {
 						case *ast.AssignStmt:
 							for i, l := range st.Lhs {
@@ -775,20 +808,41 @@ func (e *Env) avoidKeyProvenance(lit *ast.FuncLit) {
 	}
 	kinds := map[string][]string{}
 	n := 0
+	// the per-file pass and the functions of the package that fill the set on its behalf
+	scan := []ast.Node{lit.Body}
 	ast.Inspect(lit.Body, func(nd ast.Node) bool {
-		ix, ok := nd.(*ast.IndexExpr)
-		if !ok {
-			return true
+		if call, ok := nd.(*ast.CallExpr); ok {
+			if mk := e.markingFuncOf(pkg, call); mk != nil {
+				dup := false
+				for _, sc := range scan {
+					if sc == ast.Node(mk.decl.Body) {
+						dup = true
+					}
+				}
+				if !dup {
+					scan = append(scan, mk.decl.Body)
+				}
+			}
 		}
-		mt, ok := info.TypeOf(ix.X).Underlying().(*types.Map)
-		if !ok || !types.Identical(mt.Key(), types.Typ[types.Int]) || !types.Identical(mt.Elem(), types.Typ[types.Bool]) {
-			return true
-		}
-		n++
-		k := kindOf(ix.Index)
-		kinds[k] = append(kinds[k], types.ExprString(ix)+" ("+e.Prog.Pos(ix.Pos())+")")
 		return true
 	})
+	for _, root := range scan {
+		defsRoot = root.(*ast.BlockStmt)
+		ast.Inspect(root, func(nd ast.Node) bool {
+			ix, ok := nd.(*ast.IndexExpr)
+			if !ok {
+				return true
+			}
+			mt, ok := info.TypeOf(ix.X).Underlying().(*types.Map)
+			if !ok || !types.Identical(mt.Key(), types.Typ[types.Int]) || !types.Identical(mt.Elem(), types.Typ[types.Bool]) {
+				return true
+			}
+			n++
+			k := kindOf(ix.Index)
+			kinds[k] = append(kinds[k], types.ExprString(ix)+" ("+e.Prog.Pos(ix.Pos())+")")
+			return true
+		})
+	}
 	var names []string
 	for k := range kinds {
 		names = append(names, k)
